@@ -80,7 +80,9 @@ let run_impl ~(ops : (string * string) list) ~maxmem ~pool ~use_write ~fail_at ~
     Mg.c_merge_clos_free mc;
     "DONE" ^ Marshal.to_string { adds; result; late_add; late_write; nspills = n; templates; calls = 0; spills_after_add = List.rev !spills } [])
 
+let hangs = ref 0
 let check acc ~klass ~(ops : (string * string) list) ~maxmem ~pool ~use_write ~fail_at =
+  if !hangs >= 3 && pool <> 0 then () else
   let tmp = Filename.concat (Wr.tmpdir ()) "sorter_spill" in
   (try Unix.mkdir tmp 0o755 with _ -> ());
   let case = lazy (JO [ "adds", entries_json ops; "max_memory", JI maxmem; "pool", JI pool; "via_sorter_write", JB use_write; "merge_fails_at", JI fail_at ]) in
@@ -162,6 +164,9 @@ let check acc ~klass ~(ops : (string * string) list) ~maxmem ~pool ~use_write ~f
          if impl_class <> model_class then fail acc ~kind:"model_mismatch" ~what:"[C06] outcome with a failing merge function" (JO [ "case", casej (); "impl", JS impl_class; "model", JS model_class ])
        end
      end
+   | Signaled (sg, _) when sg = Sys.sigalrm ->
+     incr hangs;
+     fail acc ~kind:"spec_violation" ~what:"[C06,C13] the sorter did not finish (no progress for 20 s): an add, mtbl_sorter_iter/write or destroy hangs" (Lazy.force case)
    | Signaled (sg, _) ->
      (match mres with
       | `Abort -> bump acc "abort_both"
@@ -173,6 +178,7 @@ let check acc ~klass ~(ops : (string * string) list) ~maxmem ~pool ~use_write ~f
 let entry_cost (k, v) = 8 + String.length k + String.length v + 8
 
 let run ~tier ~seed ~only acc =
+  child_time_limit := 20;
   let idx = ref 0 in
   let want () = cur_index := !idx; (match only with None -> true | Some i -> i = !idx) in
   let directed = [
